@@ -64,7 +64,9 @@ theorem C14_independent (cfg : Cfg) (s : St κ) (op : Op κ) (a b : Task)
     simp only [step, startStep]
     split
     · exact ⟨rfl, rfl, rfl⟩
-    · refine ⟨?_, rfl, ?_⟩
+    · split
+      · exact ⟨by simp [killUnstarted, view, upd_other _ _ _ _ hb], rfl, rfl⟩
+      refine ⟨?_, rfl, ?_⟩
       · simp only [view, upd_other _ _ _ _ hb, C13.spawnStep]
         have : (if s.withCtx t then ensureEntry s.cb t else s.cb) b = s.cb b := by
           split
@@ -197,18 +199,29 @@ theorem C14_callback_table (l : List (Cb × Args)) (c : Cb) (a a' : Args) (h : (
       · simp [e, setCb, ih]
   · intro p hp; exact (List.mem_filter.1 hp).1
 
+/-- a clean-up is skipped only without the inner `try … finally` (pre-fix) or for a task that was cancelled before
+its first segment (`stillborn`: `run_coro` never ran, so neither did its `finally`) -/
+theorem leaked_false (cfg : Cfg) (ops : List (Op κ)) (t : Task)
+    (hl : cfg.cleanupAlways = true ∧ (run cfg ops).stillborn t = false ∨ (run cfg ops).leaked t = false) :
+    (run cfg ops).leaked t = false := by
+  rcases hl with ⟨e1, e2⟩ | e
+  · cases hk : (run cfg ops).leaked t with
+    | false => rfl
+    | true =>
+      rcases ((invL_run cfg ops).leak t hk).1 with a | a
+      · rw [e1] at a; cases a
+      · rw [e2] at a; cases a
+  · exact e
+
 /-- **Clean-up, every configuration.**  A finished task whose clean-up was not skipped is in no registry and owns no
-unique name; with `cleanupAlways` (the repaired code) the clean-up is never skipped. -/
+unique name; with `cleanupAlways` (the repaired code) the clean-up is skipped only for a task that was cancelled
+before its first segment. -/
 theorem C14_cleanup_partial (cfg : Cfg) (ops : List (Op κ)) (t : Task)
-    (hd : (run cfg ops).phase t = .done) (hl : cfg.cleanupAlways = true ∨ (run cfg ops).leaked t = false) :
+    (hd : (run cfg ops).phase t = .done)
+    (hl : cfg.cleanupAlways = true ∧ (run cfg ops).stillborn t = false ∨ (run cfg ops).leaked t = false) :
     Clean (run cfg ops) t := by
   have h := invR_run cfg ops
-  have hl : (run cfg ops).leaked t = false := by
-    rcases hl with e | e
-    · cases hk : (run cfg ops).leaked t with
-      | false => rfl
-      | true => have := ((invL_run cfg ops).leak t hk).1; rw [e] at this; cases this
-    · exact e
+  have hl : (run cfg ops).leaked t = false := leaked_false cfg ops t hl
   have hnl : ¬ Live (run cfg ops) t := by unfold Live; rw [hd]; simp
   have no : ∀ {p : Prop}, (p → Live (run cfg ops) t ∨ (run cfg ops).leaked t = true) → ¬ p := by
     intro p f hp
@@ -241,17 +254,19 @@ theorem C14_cleanup_partial (cfg : Cfg) (ops : List (Op κ)) (t : Task)
     intro k hk
     exact hown k (h.maps.names_own k t hk)
 
-/-- **Clean-up – the code as it is now: every finished task**, however it ended (returned, raised, cancelled in its
-body or inside a done-callback), is in no registry and owns no unique name. -/
-theorem C14_cleanup (ops : List (Op κ)) (t : Task) (hd : (run current ops).phase t = .done) :
+/-- **Clean-up – the code as it is now: every finished task that ran at all**, however it ended (returned, raised,
+cancelled in its body or inside a done-callback), is in no registry and owns no unique name.  The one excluded case is
+a task cancelled before its first segment (`C14_cex_cancel_before_first_segment`, finding C14-F7). -/
+theorem C14_cleanup (ops : List (Op κ)) (t : Task) (hd : (run current ops).phase t = .done)
+    (hs : (run current ops).stillborn t = false) :
     Clean (run current ops) t :=
-  C14_cleanup_partial current ops t hd (Or.inl rfl)
+  C14_cleanup_partial current ops t hd (Or.inl ⟨rfl, hs⟩)
 
 /-- **Regression statement about the pre-fix shape**: the clean-up can only be skipped without the inner
 `try … finally` (`cleanupAlways = false`), and then only by a cancellation delivered inside a callback or by the
 callback dict of the task being modified while its `finally` runs. -/
 theorem C14_regress_leak_causes (cfg : Cfg) (ops : List (Op κ)) (t : Task) (hl : (run cfg ops).leaked t = true) :
-    cfg.cleanupAlways = false ∧ (run cfg ops).phase t = .done ∧
+    (cfg.cleanupAlways = false ∨ (run cfg ops).stillborn t = true) ∧ (run cfg ops).phase t = .done ∧
     ((run cfg ops).touched t = true ∨ (run cfg ops).result t = some .cancelled) := by
   have h := invL_run cfg ops
   obtain ⟨a, b, c⟩ := h.leak t hl
@@ -264,26 +279,24 @@ theorem C14_regress_leak_causes (cfg : Cfg) (ops : List (Op κ)) (t : Task) (hl 
     · subst f; exact Or.inr e
     · exact Or.inl f
 
-/-- the code as it is now never skips a clean-up -/
-theorem C14_never_leaks (ops : List (Op κ)) (t : Task) : (run current ops).leaked t = false := by
-  cases hk : (run current ops).leaked t with
-  | false => rfl
-  | true => have := ((invL_run current ops).leak t hk).1; cases this
+/-- the code as it is now skips the clean-up of no task that ran at all -/
+theorem C14_never_leaks (ops : List (Op κ)) (t : Task) (hs : (run current ops).stillborn t = false) :
+    (run current ops).leaked t = false :=
+  leaked_false current ops t (Or.inl ⟨rfl, hs⟩)
 
 /-- **Quiescence, every configuration**: all created tasks finished and no clean-up skipped ⇒ all registries empty. -/
 theorem C14_quiescent_empty_partial (cfg : Cfg) (ops : List (Op κ))
     (hq : ∀ t, (run cfg ops).phase t = .none ∨ (run cfg ops).phase t = .done)
-    (hl : cfg.cleanupAlways = true ∨ ∀ t, (run cfg ops).leaked t = false) :
+    (hl : (cfg.cleanupAlways = true ∧ ∀ t, (run cfg ops).stillborn t = false) ∨
+          ∀ t, (run cfg ops).leaked t = false) :
     (∀ t, (run cfg ops).u.ours t = false ∧ (run cfg ops).cb t = none ∧ (run cfg ops).hctx t = false ∧
           (run cfg ops).u.entry t = false ∧ (run cfg ops).u.names t = []) ∧
     (∀ k, (run cfg ops).u.owner k = none) := by
   have h := invR_run cfg ops
   have hl : ∀ t, (run cfg ops).leaked t = false := by
     intro t
-    rcases hl with e | e
-    · cases hk : (run cfg ops).leaked t with
-      | false => rfl
-      | true => have := ((invL_run cfg ops).leak t hk).1; rw [e] at this; cases this
+    rcases hl with ⟨e1, e2⟩ | e
+    · exact leaked_false cfg ops t (Or.inl ⟨e1, e2 t⟩)
     · exact e t
   have hnl : ∀ t, ¬ Live (run cfg ops) t := by
     intro t hl
@@ -325,13 +338,14 @@ theorem C14_quiescent_empty_partial (cfg : Cfg) (ops : List (Op κ))
     rw [hown k] at this; cases this
 
 /-- **Quiescence – the code as it is now.**  For every step sequence after which every task that was ever created has
-finished – in whatever way – all registries are empty. -/
+finished – in whatever way, as long as each of them got to run its first segment – all registries are empty. -/
 theorem C14_quiescent_empty (ops : List (Op κ))
-    (hq : ∀ t, (run current ops).phase t = .none ∨ (run current ops).phase t = .done) :
+    (hq : ∀ t, (run current ops).phase t = .none ∨ (run current ops).phase t = .done)
+    (hs : ∀ t, (run current ops).stillborn t = false) :
     (∀ t, (run current ops).u.ours t = false ∧ (run current ops).cb t = none ∧ (run current ops).hctx t = false ∧
           (run current ops).u.entry t = false ∧ (run current ops).u.names t = []) ∧
     (∀ k, (run current ops).u.owner k = none) :=
-  C14_quiescent_empty_partial current ops hq (Or.inl rfl)
+  C14_quiescent_empty_partial current ops hq (Or.inl ⟨rfl, hs⟩)
 
 /-- **Result.**  A task whose callback loop was not left by an exception finishes with the outcome of its body:
 `ok v` ↦ `v`, an exception ↦ logged and `None`, cancelled ↦ cancelled. -/
@@ -344,7 +358,7 @@ theorem C14_result (cfg : Cfg) (ops : List (Op κ)) (t : Task)
 loop is a cancellation delivered inside a done-callback; the task then ends as *cancelled* (it was cancelled), the
 callbacks not yet started are skipped (`C14_callbacks_prefix`), and it is cleaned up like every other task. -/
 theorem C14_cancel_inside_callback (ops : List (Op κ)) (t : Task) (r : Res)
-    (hb : (run current ops).bailed t = some r) :
+    (hb : (run current ops).bailed t = some r) (hs : (run current ops).stillborn t = false) :
     r = .cancelled ∧ (run current ops).result t = some .cancelled ∧ Clean (run current ops) t := by
   obtain ⟨a, b, c⟩ := (invL_run current ops).bail t r hb
   have hr : r = .cancelled := by
@@ -352,7 +366,7 @@ theorem C14_cancel_inside_callback (ops : List (Op κ)) (t : Task) (r : Res)
     · exact c
     · cases c
   subst hr
-  exact ⟨rfl, b, C14_cleanup ops t a⟩
+  exact ⟨rfl, b, C14_cleanup ops t a hs⟩
 
 /-- the unique-name maps stay mutually inverse through every schedule, aborted `finally`s included -/
 theorem C14_maps_inv (cfg : Cfg) (ops : List (Op κ)) (k : κ) (t : Task) :
@@ -416,9 +430,21 @@ theorem C14_regress_cancel_before_start_raises :
     let ops : List (Op Nat) := [.create 0 true true, .start 0, .create 1 true true, .cancel 0 (some 1)]
     ((run preFix ops).errs = 1 ∧ (run preFix ops).u.reaperQ = []) ∧
     ((run current ops).errs = 0 ∧ (run current ops).u.reaperQ = [1] ∧
-     (run current (ops ++ [.reap])).u.reaperQ = [1] ∧
      (run current (ops ++ [.start 1, .reap])).u.reaperQ = [] ∧
-     (run current (ops ++ [.start 1, .reap])).u.cancelReq 1 = true) := by
+     (run current (ops ++ [.start 1, .reap])).u.cancelReq 1 = true ∧
+     (run current (ops ++ [.start 1, .reap])).phase 1 = .running) := by
+  decide
+
+/-- **Witness (C14-F7, open – made reachable by e8a0175): a task cancelled before its first segment.**  When the reaper
+delivers the cancel before the new task's first step (it does so whenever it is already working through its queue),
+the task's first step throws `CancelledError` into the not yet started `run_coro`: no statement of it runs, so its
+`finally` does not either – the done-callback registered on it never runs and its `task2cb` entry (made by
+`task_done_callback_ctx` right after `create_task`) stays for ever; only `our_tasks` is tidied (asyncio done-callback). -/
+theorem C14_cex_cancel_before_first_segment :
+    let s := run current [.create 0 true true, .start 0, .create 1 true true, .addCb 0 1 2 7,
+                          .cancel 0 (some 1), .reap, (.start 1 : Op Nat)]
+    s.phase 1 = .done ∧ s.stillborn 1 = true ∧ s.result 1 = some .cancelled ∧ s.cb 1 = some [(2, 7)] ∧
+    ranOf s 1 = [] ∧ specRan s 1 = [(2, 7)] ∧ s.u.ours 1 = false ∧ s.leaked 1 = true := by
   decide
 
 /-- **A task can be cancelled from the moment it exists** (the code as it is now): in any state, once `create_task`
@@ -458,20 +484,25 @@ theorem C14_regress_reaper_serialises_cancellations :
   decide
 
 /-- **The reaper never waits** (the code as it is now): in any state, whatever any other task is doing, one reaper
-iteration takes the head of the queue and – if that task is still running – cancels it.  (The only command it leaves
-in place is one for a task whose very first segment is still on the ready queue ahead of it, `headUnstarted`.) -/
-theorem C14_reaper_never_blocks (s : St κ) (h : Task) (q : List Task)
-    (hq : s.u.reaperQ = h :: q) (hs : s.phase h ≠ .created) :
+iteration takes the head of the queue and – if that task is running, or has not even started – cancels it. -/
+theorem C14_reaper_never_blocks (s : St κ) (h : Task) (q : List Task) (hq : s.u.reaperQ = h :: q) :
     (step current s .reap).u.reaperQ = q ∧
-    (s.u.live h = true → (step current s .reap).u.cancelReq h = true) := by
-  have hu : headUnstarted s = false := by
-    unfold headUnstarted; rw [hq]
-    simp only [beq_eq_false_iff_ne, ne_eq]; exact hs
-  simp only [step, reapStep, hu, Bool.false_eq_true, if_false, C13.reapStepCfg, current, Bool.not_true,
-    Bool.false_and, hq]
-  constructor
-  · split <;> rfl
-  · intro hl; simp [hl]
+    ((s.u.live h = true ∨ s.phase h = .created) → (step current s .reap).u.cancelReq h = true) := by
+  by_cases hs : s.phase h = .created
+  · have hu : headUnstarted s = true := by unfold headUnstarted; rw [hq]; simp [hs]
+    simp only [step, reapStep, hu, if_true, markUnstarted, hq]
+    simp
+  · have hu : headUnstarted s = false := by
+      unfold headUnstarted; rw [hq]
+      simp only [beq_eq_false_iff_ne, ne_eq]; exact hs
+    simp only [step, reapStep, hu, Bool.false_eq_true, if_false, C13.reapStepCfg, current, Bool.not_true,
+      Bool.false_and, hq]
+    constructor
+    · split <;> rfl
+    · intro hl
+      rcases hl with hl | hl
+      · simp [hl]
+      · exact absurd hl hs
 
 /-! non-vacuity -/
 example : let s := run current [.create 0 true true, .start 0, .storeCtx 0, .unique 0 7 false, .addCb 0 0 1 10,
